@@ -200,8 +200,8 @@ def gen_plan(seed, prop, faults, nested=False):
             q['form'] = 'text'
             # a fresh default parser costs ~90 ms of Lark grammar analysis
             q['parser'] = rng.choice(['none', 'shared', 'shared'])
-        if structs[ki]['F'] and rng.random() < 0.6 and \
-                (prop == 'C07') and q['mc'] != 'LTL':
+        if structs[ki]['F'] and q['mc'] != 'LTL' and \
+                rng.random() < (0.6 if prop == 'C07' else 0.25):
             q['F'] = rng.randrange(len(structs[ki]['F']))
         return q
 
